@@ -308,13 +308,14 @@ pub trait NodePointer<'a>: NodeIter<'a> {
 
     fn get_next_sections(&self) -> Vec<NodeId> {
         let mut sections = vec![];
-        if self.is_section() {
-            if let Some(id) = self.id() {
-                sections.push(id);
+        let mut current = self.to_self();
+        while let Some(node) = current {
+            if node.is_section() {
+                if let Some(id) = node.id() {
+                    sections.push(id);
+                }
             }
-        }
-        if let Some(next) = self.to_next() {
-            sections.extend(next.get_next_sections());
+            current = node.to_next();
         }
         sections
     }
@@ -344,15 +345,19 @@ pub trait NodePointer<'a>: NodeIter<'a> {
     }
 
     fn to_parent(&self) -> Option<Self> {
-        if let Some(prev) = self.to_prev() {
-            if let Some(id) = self.id() {
+        // back along the previous nodes until one of them is the parent of the node after it
+        // (a loop, not a recursion: the chain is as long as the node has siblings before it)
+        let mut id = self.id();
+        let mut prev = self.to_prev()?;
+        loop {
+            if let Some(id) = id {
                 if prev.is_parent_of(id) {
                     return Some(prev);
                 }
             }
-            prev.to_parent()
-        } else {
-            None
+            id = prev.id();
+            let before = prev.to_prev()?;
+            prev = before;
         }
     }
 
@@ -397,16 +402,21 @@ pub trait NodePointer<'a>: NodeIter<'a> {
             .map_or(Vec::new(), |child| child.get_next_nodes())
     }
 
+    // siblings in a loop (a note can have tens of thousands of blocks in a row), children by
+    // recursion
     fn get_all_sub_nodes(&self) -> Vec<NodeId> {
         let mut nodes = vec![self.id().unwrap_or_default()];
         if let Some(child) = self.to_child() {
             nodes.extend(child.get_all_sub_nodes());
         }
-        nodes.extend(
-            self.to_next()
-                .map(|n| n.get_all_sub_nodes())
-                .unwrap_or_else(Vec::new),
-        );
+        let mut current = self.to_next();
+        while let Some(node) = current {
+            nodes.push(node.id().unwrap_or_default());
+            if let Some(child) = node.to_child() {
+                nodes.extend(child.get_all_sub_nodes());
+            }
+            current = node.to_next();
+        }
         nodes
     }
 
@@ -415,8 +425,12 @@ pub trait NodePointer<'a>: NodeIter<'a> {
         if let Some(id) = self.id() {
             nodes.push(id);
         }
-        if let Some(next) = self.to_next() {
-            nodes.extend(next.get_next_nodes());
+        let mut current = self.to_next();
+        while let Some(node) = current {
+            if let Some(id) = node.id() {
+                nodes.push(id);
+            }
+            current = node.to_next();
         }
         nodes
     }
